@@ -46,7 +46,7 @@ TupClass(od) == <<"dc", "C", << <<"t", <<"vtuple", <<"text", "posixpath">> >>, <
                   OptIf("omit_default", od)>>
 TupInstances == { <<"obj", "C", << <<"tuple", << <<"text", "posixpath", "/abs/q">> >> >>, I(1)>> >>,
                   <<"obj", "C", << <<"tuple", << <<"text", "posixpath", "rel/p">> >> >>, I(2)>> >> }
-Classes == { TupClass(od) : od \in Tri } \cup { Class(on, od, ba, sk, fl, cd, oi) : on \in Tri, od \in Tri, ba \in Tri, sk \in BOOLEAN,
+Classes == { TupClass(od) : od \in Tri } \cup { Chain3(Class(on, od, ba, sk, {}, <<>>, FALSE)) : on \in Tri, od \in Tri, ba \in Tri, sk \in BOOLEAN } \cup { Class(on, od, ba, sk, fl, cd, oi) : on \in Tri, od \in Tri, ba \in Tri, sk \in BOOLEAN,
                                                   fl \in SUBSET AllFlags, cd \in CfgDialects, oi \in BOOLEAN }
 
 Instances == { <<"obj", "C", <<None, I(5), S("s"), S("dw"), <<"obj", "N", <<None, I(1)>> >>, I(0), I(0)>> >>,
